@@ -41,6 +41,9 @@ pub enum Op {
     Gcv(usize, IdSel),
     AddSnap(usize, IdSel, usize),
     GetSnap(usize),
+    /// make the stored snapshot `days` days old (storage-level rewrite of its timestamp only), so that the
+    /// age half of the urgency rule is exercised
+    Age(usize, i64),
 }
 
 pub const PAYLOADS: &[&[u8]] = &[b"x", &[0x00, 0xff], b"123", &[0xc3, 0x28, 0xff, 0x00, 0x80], b"-1.5e3"];
@@ -129,6 +132,7 @@ pub struct Run {
     pub accepted: BTreeMap<Uuid, Vec<Uuid>>,
     pub trace: Vec<String>,
     pub states_seen: BTreeSet<String>,
+    pub age_days: BTreeMap<Uuid, i64>,
     pub steps: usize,
     /// skip the read-back of the stored state after each request (used only to build start states)
     pub light: bool,
@@ -148,7 +152,7 @@ impl Run {
         let mut universe = vec![NIL];
         // a few fixed ids that are never versions
         universe.push(Uuid::from_u128(0x1111_1111_1111_4111_8111_1111_1111_1111));
-        Run { world: World::new(kind, cfg), model: BTreeMap::new(), clients, universe, accepted: BTreeMap::new(), trace: vec![], states_seen: BTreeSet::new(), steps: 0, light: false }
+        Run { world: World::new(kind, cfg), model: BTreeMap::new(), clients, universe, accepted: BTreeMap::new(), trace: vec![], states_seen: BTreeSet::new(), age_days: BTreeMap::new(), steps: 0, light: false }
     }
 
     fn viol(&self, tags: &[&'static str], what: String) -> Violation {
@@ -261,7 +265,7 @@ impl Run {
                             }
                             let exp_u = match &pre.snapshot {
                                 None => Urg::High,
-                                Some(s) => std::cmp::max(urgency_spec(self.world.cfg.0 as i128, 0), urgency_spec(self.world.cfg.1 as i128, s.versions_since as i128)),
+                                Some(s) => std::cmp::max(urgency_spec(self.world.cfg.0 as i128, *self.age_days.get(&cl).unwrap_or(&0) as i128), urgency_spec(self.world.cfg.1 as i128, s.versions_since as i128)),
                             };
                             if self.world.cfg.0 >= 0 && urg_of(u) != exp_u {
                                 return Err(self.viol(&["C12"], format!("urgency {:?}, expected {:?} (snapshot {:?})", u, exp_u, pre.snapshot)));
@@ -314,6 +318,7 @@ impl Run {
                     }
                     if snap_should_accept(&pre, v) {
                         mutating_expected = true;
+                        self.age_days.insert(cl, 0);
                         self.model.insert(cl, set_snapshot_spec(&pre, v, 0, &data));
                     } else if snap_corner(&pre, v) {
                         // unspecified corner: adopt what the implementation did, if it is one of the two allowed outcomes
@@ -322,9 +327,22 @@ impl Run {
                         let applied = set_snapshot_spec(&pre, v, 0, &data);
                         if real == applied {
                             mutating_expected = true;
+                            self.age_days.insert(cl, 0);
                             self.model.insert(cl, applied);
                         }
                     }
+                }
+            }
+            Op::Age(c, days) => {
+                let cl = self.clients[*c];
+                self.trace.push(format!("(storage) make the snapshot of client{c} {days} days old"));
+                let pre = cs(&self.model, cl);
+                if let (Some(s), Some(d)) = (&pre.snapshot, &pre.snapshot_data) {
+                    let mut txn = self.world.server.txn(cl).map_err(|e| self.viol(&["C05"], format!("txn failed: {e}")))?;
+                    let snap = taskchampion_sync_server_core::Snapshot { version_id: s.version_id, timestamp: chrono::Utc::now() - chrono::Duration::days(*days) - chrono::Duration::hours(1), versions_since: s.versions_since };
+                    txn.set_snapshot(snap, d.clone()).map_err(|e| self.viol(&["C13"], format!("set_snapshot failed: {e}")))?;
+                    txn.commit().map_err(|e| self.viol(&["C13"], format!("commit failed: {e}")))?;
+                    self.age_days.insert(cl, *days);
                 }
             }
             Op::GetSnap(c) => {
@@ -350,7 +368,7 @@ impl Run {
     fn check_state(&mut self, before: &Db, mutating: bool, op: &Op) -> Result<(), Violation> {
         let probe = self.world.probe();
         let actor = match op {
-            Op::Create(c) | Op::AddVersion(c, _, _) | Op::Gcv(c, _) | Op::AddSnap(c, _, _) | Op::GetSnap(c) => *c,
+            Op::Create(c) | Op::AddVersion(c, _, _) | Op::Gcv(c, _) | Op::AddSnap(c, _, _) | Op::GetSnap(c) | Op::Age(c, _) => *c,
         };
         for (i, cl) in self.clients.iter().enumerate() {
             let real = absfn::via_api(probe.as_ref(), *cl, &self.universe).map_err(|e| self.viol(&["C13", "C05"], format!("reading back state failed: {e}")))?;
@@ -432,6 +450,8 @@ pub fn alphabet(two_clients: bool) -> Vec<Op> {
             ops.push(Op::AddSnap(c, sel, 1 + c));
         }
         ops.push(Op::GetSnap(c));
+        ops.push(Op::Age(c, 3));
+        ops.push(Op::Age(c, 4));
     }
     ops
 }
@@ -456,7 +476,8 @@ impl Report {
             self.samples.push(run.trace.clone());
         }
         if let Some(v) = v {
-            if self.violations.len() < 5 {
+            // at most 2 reports per distinct tag set and 12 per part, so that one kind of failure cannot crowd out another
+            if self.violations.iter().filter(|x| x.tags == v.tags).count() < 2 && self.violations.len() < 12 {
                 self.violations.push(v);
             }
         }
@@ -489,6 +510,11 @@ pub fn seed_prefixes() -> Vec<Vec<Op>> {
     s.push(Op::AddVersion(1, IdSel::ForeignLatest, 1));
     s.push(Op::AddVersion(1, IdSel::Latest, 2));
     out.push(s);
+    // two clients that both start from the nil version (their first versions share the parent id), then both grow
+    let mut s = grow(0, 2, IdSel::Nil);
+    s.extend(grow(1, 2, IdSel::Nil));
+    s.push(Op::AddVersion(0, IdSel::Latest, 3));
+    out.push(s);
     // two clients whose snapshots carry the SAME version id (client1's chain starts at client0's latest version)
     let mut s = grow(0, 3, IdSel::Nil);
     s.push(Op::Create(1));
@@ -499,41 +525,82 @@ pub fn seed_prefixes() -> Vec<Vec<Op>> {
     out
 }
 
+
+fn op_client(op: &Op) -> usize {
+    match op {
+        Op::Create(c) | Op::AddVersion(c, _, _) | Op::Gcv(c, _) | Op::AddSnap(c, _, _) | Op::GetSnap(c) | Op::Age(c, _) => *c,
+    }
+}
+
+fn op_foreign(op: &Op) -> bool {
+    match op {
+        Op::AddVersion(_, s, _) | Op::Gcv(_, s) | Op::AddSnap(_, s, _) => matches!(s, IdSel::ForeignLatest | IdSel::ForeignAncestor(_) | IdSel::ForeignBase),
+        _ => false,
+    }
+}
+
+/// C09 (isolation): a failure in a history that involves several clients is ALSO a C09 matter when the failing client's own
+/// requests, replayed alone on a fresh server, succeed -- then the other client's data is what made the difference.
+pub fn isolation_tag(kind: BackendKind, cfg: (i64, u32), executed: &[Op], v: &mut Violation) {
+    let Some(last) = executed.last() else { return };
+    let c = op_client(last);
+    if executed.iter().all(|o| op_client(o) == c) {
+        return;
+    }
+    let own: Vec<Op> = executed.iter().filter(|o| op_client(o) == c).cloned().collect();
+    if own.iter().any(op_foreign) {
+        return;
+    }
+    let mut run = Run::new(kind, cfg);
+    for op in &own {
+        if run.step(op).is_err() {
+            return;
+        }
+    }
+    if !v.tags.contains(&"C09") {
+        v.tags.push("C09");
+    }
+    v.what.push_str(" [isolation: the same requests of this client alone, on a fresh server, are all answered correctly: another client's data made the difference]");
+}
+
 /// exhaustive: every sequence of `depth` ops from the alphabet, after each seed prefix
 pub fn exhaustive(kind: BackendKind, cfg: (i64, u32), prefixes: &[Vec<Op>], depth: usize, two_clients: bool, rep: &mut Report, budget: &mut dyn FnMut() -> bool) {
     let alpha = alphabet(two_clients);
     let mut idx = vec![0usize; depth];
-    for pre in prefixes {
-        idx.iter_mut().for_each(|x| *x = 0);
-        'seqs: loop {
-            if !budget() || !rep.violations.is_empty() {
+    // op sequences in the outer loop, seed prefixes in the inner one: if the time slice runs out, every prefix has
+    // been explored with the same (shorter) set of sequences
+    'seqs: loop {
+        for pre in prefixes {
+            if !budget() || rep.violations.len() >= 12 {
                 return;
             }
             let mut run = Run::new(kind, cfg);
             let mut viol = None;
-            for op in pre.iter().chain(idx.iter().map(|i| &alpha[*i])) {
-                if let Err(v) = run.step(op) {
+            let ops: Vec<Op> = pre.iter().cloned().chain(idx.iter().map(|i| alpha[*i].clone())).collect();
+            for (n, op) in ops.iter().enumerate() {
+                if let Err(mut v) = run.step(op) {
+                    isolation_tag(kind, cfg, &ops[..=n], &mut v);
                     viol = Some(v);
                     break;
                 }
             }
             rep.absorb(run, viol);
-            // next index vector
-            let mut k = depth;
-            loop {
-                if k == 0 {
-                    break 'seqs;
-                }
-                k -= 1;
-                idx[k] += 1;
-                if idx[k] < alpha.len() {
-                    break;
-                }
-                idx[k] = 0;
+        }
+        // next index vector
+        let mut k = depth;
+        loop {
+            if k == 0 {
+                break 'seqs;
             }
-            if depth == 0 {
+            k -= 1;
+            idx[k] += 1;
+            if idx[k] < alpha.len() {
                 break;
             }
+            idx[k] = 0;
+        }
+        if depth == 0 {
+            break;
         }
     }
 }
@@ -557,7 +624,8 @@ pub fn random_op(rng: &mut Rng) -> Op {
     let c = if rng.below(4) == 0 { 1 } else { 0 };
     let sels = [IdSel::Nil, IdSel::Latest, IdSel::Latest, IdSel::Latest, IdSel::Ancestor(1), IdSel::Ancestor(2), IdSel::Ancestor(3), IdSel::Ancestor(4), IdSel::Ancestor(5), IdSel::Ancestor(6), IdSel::Base, IdSel::Fresh, IdSel::ForeignLatest, IdSel::ForeignAncestor(1), IdSel::ForeignBase, IdSel::SnapVersion];
     let sel = sels[rng.below(sels.len())];
-    match rng.below(10) {
+    match rng.below(11) {
+        10 => Op::Age(c, [0i64, 1, 2, 3, 4, 6, 7, 13, 14, 20, 21, 22][rng.below(12)]),
         0 => Op::Create(c),
         1..=4 => Op::AddVersion(c, if rng.below(3) > 0 { IdSel::Latest } else { sel }, rng.below(PAYLOADS.len())),
         5..=6 => Op::Gcv(c, sel),
@@ -570,7 +638,7 @@ pub fn random_walks(kind: BackendKind, seed: u64, walks: usize, len: usize, rep:
     let mut rng = Rng(seed ^ 0xA5A5_5A5A_1234_5678);
     let prefixes = seed_prefixes();
     for w in 0..walks {
-        if !budget() || !rep.violations.is_empty() {
+        if !budget() || rep.violations.len() >= 12 {
             return;
         }
         let cfg = CONFIGS[w % CONFIGS.len()];
@@ -581,8 +649,9 @@ pub fn random_walks(kind: BackendKind, seed: u64, walks: usize, len: usize, rep:
         for _ in 0..len {
             ops.push(random_op(&mut rng));
         }
-        for op in &ops {
-            if let Err(v) = run.step(op) {
+        for (n, op) in ops.iter().enumerate() {
+            if let Err(mut v) = run.step(op) {
+                isolation_tag(kind, cfg, &ops[..=n], &mut v);
                 viol = Some(v);
                 break;
             }
